@@ -45,6 +45,12 @@ def main():
     driver_ok = os.path.exists(lib.model_bin(deps[0])) if deps else True
     if not driver_ok:
         broken.append("extracted model driver for %s did not build" % prop)
+    # regenerated-from-source tie (design_notes/GenTie.md): refinement proofs of the translated kernels
+    from harness import gentie
+    _gt = gentie.obligations(prop, ctx.build)
+    broken += ["GenTie %s: %s" % (n, d) for n, ok, d in _gt if not ok]
+    if _gt:
+        ctx.coverage["gentie"] = [list(o) for o in _gt]
     ctx.broken_obligations = broken
     # 4./5. correspondence + search
     try:
